@@ -360,7 +360,7 @@ impl Prop for C19 {
             .into()
     }
     fn cases(&self, tier: Tier) -> u32 {
-        tier.pick(3_000, 200_000)
+        tier.pick(30_000, 2_000_000)
     }
     fn parallel(&self) -> bool {
         // signals and the run script are process-global
